@@ -22,6 +22,10 @@ type Term struct {
 	S    string
 	Args []*Term
 	key  string
+	// Snap: for the address of a local struct handed to a call, the value the
+	// struct holds at that call (not part of the term's identity or print):
+	// loads through the callee's parameter then read this value
+	Snap *Term
 }
 
 func T(op, s string, args ...*Term) *Term { return &Term{Op: op, S: s, Args: args} }
@@ -190,6 +194,16 @@ func normalize(t *Term) *Term {
 	switch t.Op {
 	case "binop":
 		return reassoc(t)
+	case "gate":
+		// a flag parameter replaced by a constant selects one arm
+		if len(t.Args) == 3 && t.Args[0].Op == "const" {
+			switch t.Args[0].S {
+			case "true":
+				return t.Args[1]
+			case "false":
+				return t.Args[2]
+			}
+		}
 	case "call":
 		// an interface method call on a value whose concrete (in-package)
 		// type is known: the method itself
@@ -225,7 +239,25 @@ func normalize(t *Term) *Term {
 			}
 		}
 	case "load":
-		// load(field(p,f)) stays; nothing to do
+		// load(field*(address of a caller's local with a snapshot)): the field
+		// of the value the local held when it was passed
+		if len(t.Args) == 1 {
+			var path []string
+			a := t.Args[0]
+			for a.Op == "field" && len(a.Args) == 1 {
+				path = append([]string{a.S}, path...)
+				a = a.Args[0]
+			}
+			if a.Op == "alloc" && a.Snap != nil {
+				v := a.Snap
+				for _, f := range path {
+					v = projectField(v, f)
+				}
+				if !v.contains(func(u *Term) bool { return u.Op == "alloc" && u.S == a.S }) {
+					return v
+				}
+			}
+		}
 	case "slice":
 		// bounds written as arithmetic on constants: x[0*n:1*n] is x[:n];
 		// an upper bound equal to the length of the base is no bound
@@ -374,6 +406,7 @@ type termEngine struct {
 	// constIdx, when set, fixes SSA values (loop indices) to constants: used
 	// to instantiate one iteration of a constant-bound loop
 	constIdx map[ssa.Value]int64
+	snapping map[*ssa.Alloc]bool
 }
 
 // onPath returns an engine that evaluates along the given block sequence.
@@ -471,7 +504,12 @@ func calleeName(c *ssa.CallCommon) string {
 	return "dyn"
 }
 
-func (e *termEngine) callTerm(c *ssa.CallCommon) *Term {
+func (e *termEngine) callTerm(c *ssa.CallCommon) *Term { return e.callTermAt(c, nil) }
+
+// callTermAt: callTerm for the call instruction at (when known): an argument
+// that is the address of a local struct carries the struct's value at the
+// call as a snapshot.
+func (e *termEngine) callTermAt(c *ssa.CallCommon, at ssa.Instruction) *Term {
 	var args []*Term
 	if c.IsInvoke() {
 		args = append(args, e.of(c.Value))
@@ -481,7 +519,21 @@ func (e *termEngine) callTerm(c *ssa.CallCommon) *Term {
 		}
 	}
 	for _, a := range c.Args {
-		args = append(args, e.of(a))
+		t := e.of(a)
+		if al, ok := a.(*ssa.Alloc); ok && at != nil && t.Op == "alloc" && c.StaticCallee() != nil && e.P.inPkg(c.StaticCallee()) {
+			if _, isStruct := deref(al.Type()).Underlying().(*types.Struct); isStruct && !e.snapping[al] {
+				if e.snapping == nil {
+					e.snapping = map[*ssa.Alloc]bool{}
+				}
+				e.snapping[al] = true
+				snap := e.loadPath(al, nil, at)
+				delete(e.snapping, al)
+				if snap != nil && (snap.Op == "update" || snap.Op == "struct" || snap.Op == "zero") {
+					t = &Term{Op: t.Op, S: t.S, Snap: snap}
+				}
+			}
+		}
+		args = append(args, t)
 	}
 	name := calleeName(c)
 	if strings.HasPrefix(name, "builtin:") {
@@ -554,7 +606,7 @@ func (e *termEngine) compute(v ssa.Value) *Term {
 		if t := e.inlineTrivial(&v.Call); t != nil {
 			return t
 		}
-		return e.callTerm(&v.Call)
+		return e.callTermAt(&v.Call, v)
 	case *ssa.MakeMap:
 		return &Term{Op: "makemap", S: shortType(v.Type())}
 	case *ssa.MakeSlice:
@@ -925,6 +977,12 @@ func normGate(c, vt, vf *Term) *Term {
 	c = normCond(c)
 	if vt.eq(vf) {
 		return vt
+	}
+	if c.Op == "const" && c.S == "true" {
+		return vt
+	}
+	if c.Op == "const" && c.S == "false" {
+		return vf
 	}
 	return &Term{Op: "gate", Args: []*Term{c, vt, vf}}
 }
